@@ -58,22 +58,131 @@ theorem finish_ok_of : ∀ (fs : List Field) (slots : List (Int × TVal)),
         · have := h fl (by simp) hq hd; rw [hg] at this; cases this
         · simp only [hq, Bool.false_eq_true, if_false]; exact ⟨_, rfl⟩
 
+theorem TVals.wt_ofList (et : TType) : ∀ (l : List TVal), (TVals.ofList l).wt et = true ↔ ∀ y ∈ l, y.ttype = et ∧ y.wt = true
+  | [] => by simp [TVals.ofList, TVals.wt]
+  | y :: l => by simp [TVals.ofList, TVals.wt, TVals.wt_ofList et l, and_assoc]
+theorem TVals.length_ofList : ∀ (l : List TVal), (TVals.ofList l).length = l.length
+  | [] => rfl
+  | _ :: l => by simp [TVals.ofList, TVals.length, TVals.length_ofList l]
+theorem TPairs.wt_ofList (kt vt : TType) : ∀ (l : List (TVal × TVal)),
+    (TPairs.ofList l).wt kt vt = true ↔ ∀ p ∈ l, (p.1.ttype = kt ∧ p.1.wt = true) ∧ (p.2.ttype = vt ∧ p.2.wt = true)
+  | [] => by simp [TPairs.ofList, TPairs.wt]
+  | (a, b) :: l => by
+    simp only [TPairs.ofList, TPairs.wt, TPairs.wt_ofList kt vt l, Bool.and_eq_true, decide_eq_true_eq, List.mem_cons, forall_eq_or_imp]
+    constructor
+    · rintro ⟨⟨⟨⟨h1, h2⟩, h3⟩, h4⟩, h5⟩; exact ⟨⟨⟨h1, h3⟩, ⟨h2, h4⟩⟩, h5⟩
+    · rintro ⟨⟨⟨h1, h3⟩, ⟨h2, h4⟩⟩, h5⟩; exact ⟨⟨⟨⟨h1, h2⟩, h3⟩, h4⟩, h5⟩
+theorem TPairs.length_ofList : ∀ (l : List (TVal × TVal)), (TPairs.ofList l).length = l.length
+  | [] => rfl
+  | (_, _) :: l => by simp [TPairs.ofList, TPairs.length, TPairs.length_ofList l]
+theorem TFields.wt_ofList : ∀ (l : List (Int × TVal)), (TFields.ofList l).wt = true ↔ ∀ p ∈ l, inS 2 p.1 ∧ p.2.wt = true
+  | [] => by simp [TFields.ofList, TFields.wt]
+  | (i, v) :: l => by simp [TFields.ofList, TFields.wt, TFields.wt_ofList l, and_assoc]
+
+theorem foldl_setInsert_sub : ∀ (ys acc : List TVal),
+    (∀ z ∈ ys.foldl setInsert acc, z ∈ acc ∨ z ∈ ys) ∧ (ys.foldl setInsert acc).length ≤ acc.length + ys.length := by
+  intro ys
+  induction ys with
+  | nil => intro acc; simp
+  | cons y ys ih =>
+    intro acc
+    simp only [List.foldl_cons]
+    obtain ⟨h1, h2⟩ := ih (setInsert acc y)
+    have hsub : ∀ z ∈ setInsert acc y, z ∈ acc ∨ z = y := by
+      intro z hz; rw [setInsert_eq] at hz
+      split at hz
+      · exact .inl hz
+      · simpa using hz
+    have hlen : (setInsert acc y).length ≤ acc.length + 1 := by
+      rw [setInsert_eq]; split <;> simp
+    constructor
+    · intro z hz
+      rcases h1 z hz with h | h
+      · rcases hsub z h with h | h
+        · exact .inl h
+        · exact .inr (by simp [h])
+      · exact .inr (by simp [h])
+    · simp only [List.length_cons]; omega
+
+theorem mapInsert_sub (acc : List (TVal × TVal)) (k v : TVal) :
+    (∀ p ∈ mapInsert acc k v, (p.1 ∈ acc.map (·.1) ∨ p.1 = k) ∧ (p.2 ∈ acc.map (·.2) ∨ p.2 = v)) ∧ (mapInsert acc k v).length ≤ acc.length + 1 := by
+  unfold mapInsert
+  split
+  · constructor
+    · intro p hp
+      obtain ⟨q, hq, hpq⟩ := List.mem_map.mp hp
+      split at hpq
+      · subst hpq; exact ⟨.inl (List.mem_map.mpr ⟨q, hq, rfl⟩), .inr rfl⟩
+      · subst hpq; exact ⟨.inl (List.mem_map.mpr ⟨q, hq, rfl⟩), .inl (List.mem_map.mpr ⟨q, hq, rfl⟩)⟩
+    · simp
+  · constructor
+    · intro p hp
+      rcases List.mem_append.mp hp with h | h
+      · exact ⟨.inl (List.mem_map.mpr ⟨p, h, rfl⟩), .inl (List.mem_map.mpr ⟨p, h, rfl⟩)⟩
+      · simp only [List.mem_singleton] at h; subst h; exact ⟨.inr rfl, .inr rfl⟩
+    · simp
+
+theorem foldl_mapInsert_sub : ∀ (ps acc : List (TVal × TVal)),
+    (∀ p ∈ ps.foldl (fun a q => mapInsert a q.1 q.2) acc, (p.1 ∈ acc.map (·.1) ∨ p.1 ∈ ps.map (·.1)) ∧ (p.2 ∈ acc.map (·.2) ∨ p.2 ∈ ps.map (·.2))) ∧
+      (ps.foldl (fun a q => mapInsert a q.1 q.2) acc).length ≤ acc.length + ps.length := by
+  intro ps
+  induction ps with
+  | nil => intro acc; simp; intro a b h; exact ⟨⟨b, h⟩, ⟨a, h⟩⟩
+  | cons q ps ih =>
+    intro acc
+    simp only [List.foldl_cons]
+    obtain ⟨h1, h2⟩ := ih (mapInsert acc q.1 q.2)
+    obtain ⟨m1, m2⟩ := mapInsert_sub acc q.1 q.2
+    constructor
+    · intro p hp
+      obtain ⟨a, b⟩ := h1 p hp
+      constructor
+      · rcases a with a | a
+        · obtain ⟨r, hr, hrp⟩ := List.mem_map.mp a
+          rcases (m1 r hr).1 with c | c
+          · exact .inl (hrp ▸ c)
+          · exact .inr (by simp [← hrp, c])
+        · exact .inr (by simp only [List.map_cons, List.mem_cons]; exact .inr a)
+      · rcases b with b | b
+        · obtain ⟨r, hr, hrp⟩ := List.mem_map.mp b
+          rcases (m1 r hr).2 with c | c
+          · exact .inl (hrp ▸ c)
+          · exact .inr (by simp [← hrp, c])
+        · exact .inr (by simp only [List.map_cons, List.mem_cons]; exact .inr b)
+    · simp only [List.length_cons]; omega
+
 section
 variable (dw : Doc) (keep : String → Field → Bool) (dpr : Option Nat)
 
 /-- the retaining reader accepts `x` at type `ty`, with result `y`, for every budget from `B` on -/
 def Acc (ty : STy) (x y : TVal) (B : Nat) : Prop := ∀ fK, B ≤ fK → projTyK (restrict dw keep) dpr fK ty x = some (.ok y)
 
-theorem projNK_acc (e : STy) : ∀ (l : List TVal), (∀ x ∈ l, ∃ y B, Acc dw keep dpr e x y B) →
-    ∃ ys B, ∀ fK, B ≤ fK → ∀ acc, projNK (restrict dw keep) dpr fK e (TVals.ofList l) acc = some (.ok (acc.reverse ++ ys)) := by
+/-- `y` is a Rust value if `x` is, and has its wire type -/
+def Shape (x y : TVal) : Prop := (x.wt = true → y.wt = true) ∧ y.ttype = x.ttype
+
+theorem All2.length_eq {α β : Type} {R : α → β → Prop} {as : List α} {bs : List β} (h : All2 R as bs) : bs.length = as.length := by
+  induction h with
+  | nil => rfl
+  | cons _ _ ih => simp [ih]
+
+theorem TVals.length_toList : ∀ (xs : TVals), xs.toList.length = xs.length
+  | .nil => rfl
+  | .cons _ xs => by simp [TVals.toList, TVals.length, TVals.length_toList xs]
+theorem TPairs.length_toList : ∀ (xs : TPairs), xs.toList.length = xs.length
+  | .nil => rfl
+  | .cons _ _ xs => by simp [TPairs.toList, TPairs.length, TPairs.length_toList xs]
+
+theorem projNK_acc (e : STy) : ∀ (l : List TVal), (∀ x ∈ l, ∃ y B, Shape x y ∧ Acc dw keep dpr e x y B) →
+    ∃ ys B, All2 Shape l ys ∧
+      ∀ fK, B ≤ fK → ∀ acc, projNK (restrict dw keep) dpr fK e (TVals.ofList l) acc = some (.ok (acc.reverse ++ ys)) := by
   intro l
   induction l with
-  | nil => intro _; exact ⟨[], 1, fun fK hf acc => by obtain ⟨k, rfl⟩ : ∃ k, fK = k + 1 := ⟨fK - 1, by omega⟩; simp [TVals.ofList, projNK]⟩
+  | nil => intro _; exact ⟨[], 1, .nil, fun fK hf acc => by obtain ⟨k, rfl⟩ : ∃ k, fK = k + 1 := ⟨fK - 1, by omega⟩; simp [TVals.ofList, projNK]⟩
   | cons x l ih =>
     intro h
-    obtain ⟨ys, B2, h2⟩ := ih (fun y hy => h y (by simp [hy]))
-    obtain ⟨y, B1, h1⟩ := h x (by simp)
-    refine ⟨y :: ys, max B1 B2 + 1, fun fK hf acc => ?_⟩
+    obtain ⟨ys, B2, hs2, h2⟩ := ih (fun y hy => h y (by simp [hy]))
+    obtain ⟨y, B1, hs1, h1⟩ := h x (by simp)
+    refine ⟨y :: ys, max B1 B2 + 1, .cons hs1 hs2, fun fK hf acc => ?_⟩
     obtain ⟨k, rfl⟩ : ∃ k, fK = k + 1 := ⟨fK - 1, by omega⟩
     simp only [TVals.ofList, projNK]
     rw [h1 k (by omega)]
@@ -82,17 +191,18 @@ theorem projNK_acc (e : STy) : ∀ (l : List TVal), (∀ x ∈ l, ∃ y B, Acc d
     simp
 
 theorem projPairsK_acc (k v : STy) : ∀ (l : List (TVal × TVal)),
-    (∀ x ∈ l, (∃ y B, Acc dw keep dpr k x.1 y B) ∧ (∃ y B, Acc dw keep dpr v x.2 y B)) →
-    ∃ ys B, ∀ fK, B ≤ fK → ∀ acc, projPairsK (restrict dw keep) dpr fK k v (TPairs.ofList l) acc = some (.ok (acc.reverse ++ ys)) := by
+    (∀ x ∈ l, (∃ y B, Shape x.1 y ∧ Acc dw keep dpr k x.1 y B) ∧ (∃ y B, Shape x.2 y ∧ Acc dw keep dpr v x.2 y B)) →
+    ∃ ys B, All2 (fun x y => Shape x.1 y.1 ∧ Shape x.2 y.2) l ys ∧
+      ∀ fK, B ≤ fK → ∀ acc, projPairsK (restrict dw keep) dpr fK k v (TPairs.ofList l) acc = some (.ok (acc.reverse ++ ys)) := by
   intro l
   induction l with
-  | nil => intro _; exact ⟨[], 1, fun fK hf acc => by obtain ⟨j, rfl⟩ : ∃ j, fK = j + 1 := ⟨fK - 1, by omega⟩; simp [TPairs.ofList, projPairsK]⟩
+  | nil => intro _; exact ⟨[], 1, .nil, fun fK hf acc => by obtain ⟨j, rfl⟩ : ∃ j, fK = j + 1 := ⟨fK - 1, by omega⟩; simp [TPairs.ofList, projPairsK]⟩
   | cons x l ih =>
     intro h
-    obtain ⟨ys, B2, h2⟩ := ih (fun y hy => h y (by simp [hy]))
-    obtain ⟨⟨yk, Bk, hk⟩, ⟨yv, Bv, hv⟩⟩ := h x (by simp)
+    obtain ⟨ys, B2, hs2, h2⟩ := ih (fun y hy => h y (by simp [hy]))
+    obtain ⟨⟨yk, Bk, hsk, hk⟩, ⟨yv, Bv, hsv, hv⟩⟩ := h x (by simp)
     obtain ⟨xk, xv⟩ := x
-    refine ⟨(yk, yv) :: ys, max (max Bk Bv) B2 + 1, fun fK hf acc => ?_⟩
+    refine ⟨(yk, yv) :: ys, max (max Bk Bv) B2 + 1, .cons ⟨hsk, hsv⟩ hs2, fun fK hf acc => ?_⟩
     obtain ⟨j, rfl⟩ : ∃ j, fK = j + 1 := ⟨fK - 1, by omega⟩
     simp only [TPairs.ofList, projPairsK]
     rw [hk j (by omega)]
@@ -106,36 +216,41 @@ theorem projPairsK_acc (k v : STy) : ∀ (l : List (TVal × TVal)),
 theorem projFieldsK_acc (fs0 : List Field) (kp : Field → Bool) (hpw : fs0.Pairwise (fun a b => a.id ≠ b.id)) :
     ∀ (l : List (Int × TVal)),
     (∀ p ∈ l, inS 2 p.1 ∧ ∃ fl ∈ fs0, fl.id = p.1 ∧ dw.ttype fl.ty = p.2.ttype ∧
-      (if kp fl then ∃ y B, Acc dw keep dpr fl.ty p.2 y B else admitsB dpr p.2.need = true)) →
+      (if kp fl then ∃ y B, Shape p.2 y ∧ Acc dw keep dpr fl.ty p.2 y B else admitsB dpr p.2.need = true)) →
     ∃ ks B, (∀ q ∈ l, keptBy dw fs0 kp q = true → ∃ k ∈ ks, k.1 = q.1) ∧
+      (∀ k ∈ ks, ∃ q ∈ l, k.1 = q.1 ∧ Shape q.2 k.2) ∧
       ∀ fK, B ≤ fK → ∀ slots unk, projFieldsK (restrict dw keep) dpr fK (fs0.filter kp) slots unk (TFields.ofList l) =
         some (.ok (setAll slots ks, unk ++ l.filter (fun p => !keptBy dw fs0 kp p))) := by
   intro l
   induction l with
   | nil =>
     intro _
-    refine ⟨[], 1, (fun q hq => by cases hq), fun fK hf slots unk => ?_⟩
+    refine ⟨[], 1, (fun q hq => by cases hq), (fun k hk => by cases hk), fun fK hf slots unk => ?_⟩
     obtain ⟨j, rfl⟩ : ∃ j, fK = j + 1 := ⟨fK - 1, by omega⟩
     simp [TFields.ofList, projFieldsK, setAll]
   | cons p l ih =>
     intro h
-    obtain ⟨ks, B2, hcov, h2⟩ := ih (fun q hq => h q (by simp [hq]))
+    obtain ⟨ks, B2, hcov, hsh, h2⟩ := ih (fun q hq => h q (by simp [hq]))
     obtain ⟨hin, fl, hfl, hid, htt, hcase⟩ := h p (by simp)
     obtain ⟨id, v⟩ := p
     simp only at hin hid htt hcase
     have hkb : keptBy dw fs0 kp (id, v) = kp fl := keptBy_eq dw fs0 kp hpw (id, v) fl hfl hid htt
     by_cases hk : kp fl = true
     · simp only [hk, if_true] at hcase
-      obtain ⟨y, B1, h1⟩ := hcase
+      obtain ⟨y, B1, hs1, h1⟩ := hcase
       have hfr : fs0.find? (fun a => decide (kp a = true ∧ (a.id == id && dw.ttype a.ty == v.ttype) = true)) = some fl := by
         apply find_unique fs0 hpw fl hfl
         · simp only [decide_eq_true_eq, Bool.and_eq_true, beq_iff_eq]; exact ⟨hk, hid, htt⟩
         · intro x hx; simp only [decide_eq_true_eq, Bool.and_eq_true, beq_iff_eq] at hx; rw [hx.2.1, hid]
-      refine ⟨(id, y) :: ks, max B1 B2 + 1, ?_, fun fK hf slots unk => ?_⟩
+      refine ⟨(id, y) :: ks, max B1 B2 + 1, ?_, ?_, fun fK hf slots unk => ?_⟩
       · intro q hq hkq
         rcases List.mem_cons.mp hq with rfl | hq
         · exact ⟨(id, y), by simp, rfl⟩
         · obtain ⟨k, hkm, hk1⟩ := hcov q hq hkq; exact ⟨k, by simp [hkm], hk1⟩
+      · intro k hkm
+        rcases List.mem_cons.mp hkm with rfl | hkm
+        · exact ⟨(id, v), by simp, rfl, hs1⟩
+        · obtain ⟨q, hq, hq1, hq2⟩ := hsh k hkm; exact ⟨q, by simp [hq], hq1, hq2⟩
       · obtain ⟨j, rfl⟩ : ∃ j, fK = j + 1 := ⟨fK - 1, by omega⟩
         simp only [TFields.ofList, projFieldsK, restrict_ttype, List.find?_filter, hin, not_true_eq_false, if_false, hfr]
         rw [h1 j (by omega)]
@@ -149,29 +264,33 @@ theorem projFieldsK_acc (fs0 : List Field) (kp : Field → Bool) (hpw : fs0.Pair
         simp only [decide_eq_true_eq, Bool.and_eq_true, beq_iff_eq] at hq
         have : x = fl := same_field fs0 hpw x fl hx hfl (by rw [hq.2.1, hid])
         rw [this] at hq; exact hk hq.1
-      refine ⟨ks, B2 + 1, ?_, fun fK hf slots unk => ?_⟩
+      refine ⟨ks, B2 + 1, ?_, ?_, fun fK hf slots unk => ?_⟩
       · intro q hq hkq
         rcases List.mem_cons.mp hq with rfl | hq
         · rw [hkb] at hkq; exact absurd hkq hk
         · exact hcov q hq hkq
+      · intro k hkm
+        obtain ⟨q, hq, hq1, hq2⟩ := hsh k hkm; exact ⟨q, by simp [hq], hq1, hq2⟩
       · obtain ⟨j, rfl⟩ : ∃ j, fK = j + 1 := ⟨fK - 1, by omega⟩
         simp only [TFields.ofList, projFieldsK, restrict_ttype, List.find?_filter, hin, not_true_eq_false, if_false, hfr, hcase, if_true]
         rw [h2 j (by omega)]
         have : keptBy dw fs0 kp (id, v) = false := by rw [hkb]; simpa using hk
         simp [List.filter_cons, this]
 
-/-- **the retaining reader accepts every typed value within its skipper's depth budget** -/
+/-- **the retaining reader accepts every typed value within its skipper's depth budget**, and what it returns is a Rust
+value of the same wire type -/
 theorem keep_accepts_all (hd : dw.fieldsOk) : ∀ (f : Nat) (ty : STy) (w : TVal), hasTy dw f ty w = true → admitsB dpr w.need = true →
-    ∃ w' B, Acc dw keep dpr ty w w' B := by
+    ∃ w' B, Shape w w' ∧ Acc dw keep dpr ty w w' B := by
   intro f
   induction f with
   | zero => intro ty w h; simp [hasTy] at h
   | succ f ih =>
     intro ty w h ha
     have base : ∀ (t : STy) (x : TVal), projTy (restrict dw keep) dpr 1 t x = some (.ok x) →
-        (∀ j, projTyK (restrict dw keep) dpr (j + 1) t x = projTy (restrict dw keep) dpr (j + 1) t x) → ∃ w' B, Acc dw keep dpr t x w' B := by
+        (∀ j, projTyK (restrict dw keep) dpr (j + 1) t x = projTy (restrict dw keep) dpr (j + 1) t x) →
+        ∃ w' B, Shape x w' ∧ Acc dw keep dpr t x w' B := by
       intro t x h1 hfall
-      refine ⟨x, 1, fun fK hf => ?_⟩
+      refine ⟨x, 1, ⟨id, rfl⟩, fun fK hf => ?_⟩
       obtain ⟨j, rfl⟩ : ∃ j, fK = j + 1 := ⟨fK - 1, by omega⟩
       rw [hfall j]
       exact projTy_mono _ dpr 1 (j + 1) (by omega) t x x h1
@@ -192,41 +311,79 @@ theorem keep_accepts_all (hd : dw.fieldsOk) : ∀ (f : Nat) (ty : STy) (w : TVal
       simp only [hasTy, Bool.and_eq_true, beq_iff_eq] at h
       have hall := (allV_iff _ xs).mp h.2
       simp only [TVal.need] at ha
-      obtain ⟨ys, B, hB⟩ := projNK_acc dw keep dpr e xs.toList (fun x hx =>
+      obtain ⟨ys, B, hsh, hB⟩ := projNK_acc dw keep dpr e xs.toList (fun x hx =>
         ih e x (hall x hx) (admitsB_mono dpr _ _ (by have := TVals.need_mem xs x hx; omega) ha))
-      refine ⟨.list ((restrict dw keep).ttype e) (TVals.ofList ys), B + 1, fun fK hf => ?_⟩
-      obtain ⟨j, rfl⟩ : ∃ j, fK = j + 1 := ⟨fK - 1, by omega⟩
-      have := hB j (by omega) []
-      rw [TVals.ofList_toList] at this
-      simp [projTyK, this]
+      refine ⟨.list ((restrict dw keep).ttype e) (TVals.ofList ys), B + 1, ⟨fun hw => ?_, rfl⟩, fun fK hf => ?_⟩
+      · simp only [TVal.wt, Bool.and_eq_true, decide_eq_true_eq] at hw ⊢
+        rw [restrict_ttype, ← h.1, TVals.length_ofList, hsh.length_eq, TVals.length_toList]
+        refine ⟨⟨hw.1.1, hw.1.2⟩, (TVals.wt_ofList t ys).mpr fun y hy => ?_⟩
+        obtain ⟨x, hx, hxy⟩ := hsh.mem_right y hy
+        have hxw := (TVals.wt_ofList t xs.toList).mp (by rw [TVals.ofList_toList]; exact hw.2) x hx
+        exact ⟨by rw [hxy.2, hxw.1], hxy.1 hxw.2⟩
+      · obtain ⟨j, rfl⟩ : ∃ j, fK = j + 1 := ⟨fK - 1, by omega⟩
+        have := hB j (by omega) []
+        rw [TVals.ofList_toList] at this
+        simp [projTyK, this]
     | set e =>
       cases w <;> (try (simp [hasTy] at h; done))
       rename_i t xs
       simp only [hasTy, Bool.and_eq_true, beq_iff_eq] at h
       have hall := (allV_iff _ xs).mp h.1.2
       simp only [TVal.need] at ha
-      obtain ⟨ys, B, hB⟩ := projNK_acc dw keep dpr e xs.toList (fun x hx =>
+      obtain ⟨ys, B, hsh, hB⟩ := projNK_acc dw keep dpr e xs.toList (fun x hx =>
         ih e x (hall x hx) (admitsB_mono dpr _ _ (by have := TVals.need_mem xs x hx; omega) ha))
-      refine ⟨.set ((restrict dw keep).ttype e) (TVals.ofList (ys.foldl setInsert [])), B + 1, fun fK hf => ?_⟩
-      obtain ⟨j, rfl⟩ : ∃ j, fK = j + 1 := ⟨fK - 1, by omega⟩
-      have := hB j (by omega) []
-      rw [TVals.ofList_toList] at this
-      simp [projTyK, this]
+      refine ⟨.set ((restrict dw keep).ttype e) (TVals.ofList (ys.foldl setInsert [])), B + 1, ⟨fun hw => ?_, rfl⟩, fun fK hf => ?_⟩
+      · simp only [TVal.wt, Bool.and_eq_true, decide_eq_true_eq] at hw ⊢
+        obtain ⟨hsub, hlen⟩ := foldl_setInsert_sub ys []
+        rw [restrict_ttype, ← h.1.1, TVals.length_ofList]
+        have hl := hsh.length_eq
+        rw [TVals.length_toList] at hl
+        refine ⟨⟨hw.1.1, by simp only [List.length_nil] at hlen; omega⟩, (TVals.wt_ofList t _).mpr fun y hy => ?_⟩
+        have hy' : y ∈ ys := by
+          rcases hsub y hy with h0 | h0
+          · cases h0
+          · exact h0
+        obtain ⟨x, hx, hxy⟩ := hsh.mem_right y hy'
+        have hxw := (TVals.wt_ofList t xs.toList).mp (by rw [TVals.ofList_toList]; exact hw.2) x hx
+        exact ⟨by rw [hxy.2, hxw.1], hxy.1 hxw.2⟩
+      · obtain ⟨j, rfl⟩ : ∃ j, fK = j + 1 := ⟨fK - 1, by omega⟩
+        have := hB j (by omega) []
+        rw [TVals.ofList_toList] at this
+        simp [projTyK, this]
     | map k v =>
       cases w <;> (try (simp [hasTy] at h; done))
       rename_i kt vt kvs
       simp only [hasTy, Bool.and_eq_true, beq_iff_eq] at h
       have hall := (allP_iff _ _ kvs).mp h.1.2
       simp only [TVal.need] at ha
-      obtain ⟨ys, B, hB⟩ := projPairsK_acc dw keep dpr k v kvs.toList (fun x hx =>
+      obtain ⟨ys, B, hsh, hB⟩ := projPairsK_acc dw keep dpr k v kvs.toList (fun x hx =>
         ⟨ih k x.1 (hall x hx).1 (admitsB_mono dpr _ _ (by have := (TPairs.need_mem kvs x hx).1; omega) ha),
          ih v x.2 (hall x hx).2 (admitsB_mono dpr _ _ (by have := (TPairs.need_mem kvs x hx).2; omega) ha)⟩)
       refine ⟨.map ((restrict dw keep).ttype k) ((restrict dw keep).ttype v)
-        (TPairs.ofList (ys.foldl (fun a p => mapInsert a p.1 p.2) [])), B + 1, fun fK hf => ?_⟩
-      obtain ⟨j, rfl⟩ : ∃ j, fK = j + 1 := ⟨fK - 1, by omega⟩
-      have := hB j (by omega) []
-      rw [TPairs.ofList_toList] at this
-      simp [projTyK, this]
+        (TPairs.ofList (ys.foldl (fun a p => mapInsert a p.1 p.2) [])), B + 1, ⟨fun hw => ?_, rfl⟩, fun fK hf => ?_⟩
+      · simp only [TVal.wt, Bool.and_eq_true, decide_eq_true_eq] at hw ⊢
+        obtain ⟨hsub, hlen⟩ := foldl_mapInsert_sub ys []
+        rw [restrict_ttype, restrict_ttype, ← h.1.1.1, ← h.1.1.2, TPairs.length_ofList]
+        have hl := hsh.length_eq
+        rw [TPairs.length_toList] at hl
+        have hxs := (TPairs.wt_ofList kt vt kvs.toList).mp (by rw [TPairs.ofList_toList]; exact hw.2)
+        refine ⟨⟨⟨hw.1.1.1, hw.1.1.2⟩, by simp only [List.length_nil] at hlen; omega⟩, (TPairs.wt_ofList kt vt _).mpr fun p hp => ?_⟩
+        obtain ⟨hk1, hv1⟩ := hsub p hp
+        constructor
+        · rcases hk1 with h0 | h0
+          · simp at h0
+          · obtain ⟨q, hq, hqp⟩ := List.mem_map.mp h0
+            obtain ⟨x, hx, hxq⟩ := hsh.mem_right q hq
+            rw [← hqp]; exact ⟨by rw [hxq.1.2, (hxs x hx).1.1], hxq.1.1 (hxs x hx).1.2⟩
+        · rcases hv1 with h0 | h0
+          · simp at h0
+          · obtain ⟨q, hq, hqp⟩ := List.mem_map.mp h0
+            obtain ⟨x, hx, hxq⟩ := hsh.mem_right q hq
+            rw [← hqp]; exact ⟨by rw [hxq.2.2, (hxs x hx).2.1], hxq.2.1 (hxs x hx).2.2⟩
+      · obtain ⟨j, rfl⟩ : ∃ j, fK = j + 1 := ⟨fK - 1, by omega⟩
+        have := hB j (by omega) []
+        rw [TPairs.ofList_toList] at this
+        simp [projTyK, this]
     | ref n =>
       simp only [hasTy] at h
       cases hn : dw.find n with
@@ -242,7 +399,7 @@ theorem keep_accepts_all (hd : dw.fieldsOk) : ∀ (f : Nat) (ty : STy) (w : TVal
           have hpw := hd n fs0 hn
           have hnr : (restrict dw keep).find n = some (.struct (fs0.filter (keep n))) := by rw [restrict_find, hn]; rfl
           have hmem := hasFields_mem dw (hasTy dw f) fs0 wfs h
-          obtain ⟨ks, B, hcov, hB⟩ := projFieldsK_acc dw keep dpr fs0 (keep n) hpw wfs.toList (by
+          obtain ⟨ks, B, hcov, hsh, hB⟩ := projFieldsK_acc dw keep dpr fs0 (keep n) hpw wfs.toList (by
             intro p hp
             obtain ⟨fl, hfl, hid, hin, htt, hty⟩ := hmem p hp
             have hneed : admitsB dpr p.2.need = true := admitsB_mono dpr _ _ (by have := TFields.need_mem wfs p hp; omega) ha
@@ -250,22 +407,42 @@ theorem keep_accepts_all (hd : dw.fieldsOk) : ∀ (f : Nat) (ty : STy) (w : TVal
             by_cases hk : keep n fl = true
             · simp only [hk, if_true]; exact ih fl.ty p.2 hty hneed
             · simp only [hk, Bool.false_eq_true, if_false]; exact hneed)
+          have keptSlot : ∀ fl ∈ fs0.filter (keep n), (∃ q ∈ wfs.toList, q.1 = fl.id) → (slotGet (setAll [] ks) fl.id).isSome = true := by
+            intro fl hflr ⟨q, hq, hqid⟩
+            have hfl0 := List.mem_filter.mp hflr
+            obtain ⟨fl', hfl', hid', _, htt', _⟩ := hmem q hq
+            have hsame : fl' = fl := same_field fs0 hpw fl' fl hfl' hfl0.1 (by rw [hid', hqid])
+            rw [hsame] at htt'
+            have hkq : keptBy dw fs0 (keep n) q = true := by rw [keptBy_eq dw fs0 (keep n) hpw q fl hfl0.1 hqid.symm htt']; exact hfl0.2
+            obtain ⟨k, hkm, hk1⟩ := hcov q hq hkq
+            exact setAll_get_isSome ks [] fl.id (.inl ⟨k, hkm, by rw [hk1, hqid]⟩)
           obtain ⟨out, hout⟩ := finish_ok_of (fs0.filter (keep n)) (setAll [] ks) (by
             intro fl hflr hreq hdf
-            have hfl0 := List.mem_filter.mp hflr
-            rcases hasFields_absent dw _ fs0 wfs h fl hfl0.1 with ⟨q, hq, hqid⟩ | ⟨hnr', _⟩
-            · obtain ⟨fl', hfl', hid', _, htt', _⟩ := hmem q hq
-              have hsame : fl' = fl := same_field fs0 hpw fl' fl hfl' hfl0.1 (by rw [hid', hqid])
-              rw [hsame] at htt'
-              have hkq : keptBy dw fs0 (keep n) q = true := by rw [keptBy_eq dw fs0 (keep n) hpw q fl hfl0.1 hqid.symm htt']; exact hfl0.2
-              obtain ⟨k, hkm, hk1⟩ := hcov q hq hkq
-              exact setAll_get_isSome ks [] fl.id (.inl ⟨k, hkm, by rw [hk1, hqid]⟩)
+            rcases hasFields_absent dw _ fs0 wfs h fl (List.mem_filter.mp hflr).1 with hpres | ⟨hnr', _⟩
+            · exact keptSlot fl hflr hpres
             · rw [hreq] at hnr'; cases hnr')
-          refine ⟨.struct (TFields.ofList (out ++ wfs.toList.filter (fun p => !keptBy dw fs0 (keep n) p))), B + 1, fun fK hf => ?_⟩
-          obtain ⟨j, rfl⟩ : ∃ j, fK = j + 1 := ⟨fK - 1, by omega⟩
-          have := hB j (by omega) [] []
-          rw [TFields.ofList_toList] at this
-          simp [projTyK, hnr, this, hout]
+          refine ⟨.struct (TFields.ofList (out ++ wfs.toList.filter (fun p => !keptBy dw fs0 (keep n) p))), B + 1, ⟨fun hw => ?_, rfl⟩, fun fK hf => ?_⟩
+          · simp only [TVal.wt] at hw ⊢
+            have hwl := (TFields.wt_ofList wfs.toList).mp (by rw [TFields.ofList_toList]; exact hw)
+            refine (TFields.wt_ofList _).mpr fun p hp => ?_
+            rcases List.mem_append.mp hp with hpo | hpu
+            · obtain ⟨fl, hflr, hid, hslot⟩ := finish_mem _ _ out hout p hpo
+              rcases hslot with hsome | ⟨hnone, hdf⟩
+              · rcases setAll_get_some ks [] fl.id p.2 hsome with hin | hbad
+                · obtain ⟨q, hq, hq1, hq2⟩ := hsh (fl.id, p.2) hin
+                  simp only at hq1 hq2
+                  exact ⟨by rw [← hid, hq1]; exact (hwl q hq).1, hq2.1 (hwl q hq).2⟩
+                · simp [slotGet] at hbad
+              · exfalso
+                rcases hasFields_absent dw _ fs0 wfs h fl (List.mem_filter.mp hflr).1 with hpres | ⟨_, hdn⟩
+                · have := keptSlot fl hflr hpres
+                  rw [hnone] at this; cases this
+                · rw [hdn] at hdf; cases hdf
+            · exact hwl p (List.mem_filter.mp hpu).1
+          · obtain ⟨j, rfl⟩ : ∃ j, fK = j + 1 := ⟨fK - 1, by omega⟩
+            have := hB j (by omega) [] []
+            rw [TFields.ofList_toList] at this
+            simp [projTyK, hnr, this, hout]
         | union vs =>
           simp only [hn] at h
           cases w <;> (try (simp at h; done))
@@ -278,7 +455,7 @@ theorem keep_accepts_all (hd : dw.fieldsOk) : ∀ (f : Nat) (ty : STy) (w : TVal
             | cons hd' tl =>
               obtain ⟨i, t⟩ := hd'
               cases t <;> simp at h
-              refine ⟨.struct .nil, 2, fun fK hf => ?_⟩
+              refine ⟨.struct .nil, 2, ⟨id, rfl⟩, fun fK hf => ?_⟩
               obtain ⟨j, rfl⟩ : ∃ j, fK = j + 1 + 1 := ⟨fK - 2, by omega⟩
               simp [projTyK, hnr, projUnionK]
           | cons id v r =>
@@ -292,24 +469,26 @@ theorem keep_accepts_all (hd : dw.fieldsOk) : ∀ (f : Nat) (ty : STy) (w : TVal
                 obtain ⟨pid, ty⟩ := p
                 simp only [hfind, Bool.and_eq_true, decide_eq_true_eq, beq_iff_eq] at h
                 simp only [TVal.need, TFields.need] at ha
-                obtain ⟨pv, B, hB⟩ := ih ty v h.2 (admitsB_mono dpr _ _ (by omega) ha)
-                refine ⟨.struct (.cons id pv .nil), B + 3, fun fK hf => ?_⟩
-                obtain ⟨j, rfl⟩ : ∃ j, fK = j + 1 + 1 + 1 := ⟨fK - 3, by omega⟩
-                simp only [projTyK, hnr, projUnionK, h.1.1, not_true_eq_false, if_false, hfind, Option.isSome_none, Bool.false_eq_true,
-                  restrict_ttype, h.1.2, bne_self_eq_false, hB (j + 1) (by omega)]
+                obtain ⟨pv, B, hs, hB⟩ := ih ty v h.2 (admitsB_mono dpr _ _ (by omega) ha)
+                refine ⟨.struct (.cons id pv .nil), B + 3, ⟨fun hw => ?_, rfl⟩, fun fK hf => ?_⟩
+                · simp only [TVal.wt, TFields.wt, Bool.and_eq_true, decide_eq_true_eq, and_true] at hw ⊢
+                  exact ⟨hw.1, hs.1 hw.2⟩
+                · obtain ⟨j, rfl⟩ : ∃ j, fK = j + 1 + 1 + 1 := ⟨fK - 3, by omega⟩
+                  simp only [projTyK, hnr, projUnionK, h.1.1, not_true_eq_false, if_false, hfind, Option.isSome_none, Bool.false_eq_true,
+                    restrict_ttype, h.1.2, bne_self_eq_false, hB (j + 1) (by omega)]
         | enum =>
           simp only [hn] at h
           cases w <;> (try (simp at h; done))
           rename_i x
           have hnr : (restrict dw keep).find n = some .enum := by rw [restrict_find, hn]; rfl
-          refine ⟨.i32 x, 1, fun fK hf => ?_⟩
+          refine ⟨.i32 x, 1, ⟨id, rfl⟩, fun fK hf => ?_⟩
           obtain ⟨j, rfl⟩ : ∃ j, fK = j + 1 := ⟨fK - 1, by omega⟩
           simp only [projTyK, hnr]
         | typedef t =>
           simp only [hn] at h
           have hnr : (restrict dw keep).find n = some (.typedef t) := by rw [restrict_find, hn]; rfl
-          obtain ⟨w', B, hB⟩ := ih t w h ha
-          refine ⟨w', B + 1, fun fK hf => ?_⟩
+          obtain ⟨w', B, hs, hB⟩ := ih t w h ha
+          refine ⟨w', B + 1, hs, fun fK hf => ?_⟩
           obtain ⟨j, rfl⟩ : ∃ j, fK = j + 1 := ⟨fK - 1, by omega⟩
           simp only [projTyK, hnr]
           exact hB j (by omega)
